@@ -640,18 +640,30 @@ func (s *scope) interpretOps(obj pyObject, ops []OpExpression) pyObject {
 		// The next operator is not higher than us so we can evaluate one more expression
 		return s.interpretOps(s.interpretOp(obj, ops[0]), ops[1:])
 	}
-	// Next operator does have higher precedence so we do that first, unless we short-circuit
+	// Next operator does have higher precedence so we do that first, unless we short-circuit.
+	// The right-hand operand of ops[0] extends only over the following operators that bind tighter than it;
+	// anything after that is applied to the result.
+	k := 1
+	for k < len(ops) && ops[k].Op.Precedence() > ops[0].Op.Precedence() {
+		k++
+	}
+	var res pyObject
 	if ops[0].Op.Lazy() && obj.IsTruthy() != (ops[0].Op == And) {
-		return obj
+		res = obj
 	} else if ops[0].Expr == nil {
 		// Unary expression
-		return s.interpretOp(s.interpretOps(obj, ops[1:]), ops[0])
+		res = s.interpretOp(s.interpretOps(obj, ops[1:k]), ops[0])
+	} else {
+		nobj := s.interpretOps(s.interpretExpression(ops[0].Expr), ops[1:k])
+		res = s.interpretOp(obj, OpExpression{
+			Op:   ops[0].Op,
+			Expr: &Expression{optimised: &optimisedExpression{Constant: nobj}},
+		})
 	}
-	nobj := s.interpretOps(s.interpretExpression(ops[0].Expr), ops[1:])
-	return s.interpretOp(obj, OpExpression{
-		Op:   ops[0].Op,
-		Expr: &Expression{optimised: &optimisedExpression{Constant: nobj}},
-	})
+	if k == len(ops) {
+		return res
+	}
+	return s.interpretOps(res, ops[k:])
 }
 
 func (s *scope) interpretOp(obj pyObject, op OpExpression) pyObject {
